@@ -2085,6 +2085,10 @@ Vsetname(int32       vkey, /* IN: vgroup key */
 
     name_len = strlen(vgname); /* shortcut of length of the given name */
 
+    /* the name length is a 16-bit field of the Vgroup record */
+    if (name_len > UINT16_MAX)
+        HGOTO_ERROR(DFE_EXCEEDMAX, FAIL);
+
     /* if name exists, release it */
     free(vg->vgname);
 
@@ -2152,6 +2156,10 @@ Vsetclass(int32       vkey, /* IN: vgroup key */
      */
 
     classname_len = strlen(vgclass); /* length of the given class name */
+
+    /* the class name length is a 16-bit field of the Vgroup record */
+    if (classname_len > UINT16_MAX)
+        HGOTO_ERROR(DFE_EXCEEDMAX, FAIL);
 
     /* if name exists, release it */
     free(vg->vgclass);
